@@ -19,6 +19,7 @@ RULE = (
     "lengths that are not FFT-good sizes, argmax cases whose best template is not the first, every affine map, every direct kernel call with "
     "an unsorted bank, and recovery cases whose pulse touches or wraps around the array edge"
 )
+SCALE_LANE = 'data lengths 8209 and 10007 (thorough up to 65537) x 3 kinds x 2 banks against a float64 FFT evaluation of the defining sums'
 ASSUMPTIONS = [
     "z is the library's own standardised data (MatchedFilter.zscores.data); the template definition (zero-padded to n, zero mean, unit L2 norm, reference bin rolled to t) is evaluated independently in float64",
     "tolerance 32*eps32*log2(n)*||z||_2 per response (float32 FFT rounding); exact ties of the maximum are excluded",
